@@ -330,6 +330,74 @@ func pagedHistory(rng *rand.Rand, n int) {
 	call("D", dump)
 }
 
+func resHistory(rng *rand.Rand, n int) {
+	fmt.Fprintf(out, "H res\n")
+	r := ecs.NewVResources()
+	toks := map[any]int{}
+	mk := func() (any, int) {
+		k := 1 + len(toks)
+		p := new(int)
+		*p = k
+		toks[p] = k
+		return p, k
+	}
+	show := func(x any) string {
+		if x == nil {
+			return "nil"
+		}
+		return fmt.Sprint(toks[x])
+	}
+	dump := func() string {
+		st := r.State()
+		s := make([]string, len(st))
+		for i, x := range st {
+			s[i] = show(x)
+		}
+		return "d " + strings.Join(s, ",")
+	}
+	ids := []int{0, 1, 2, 3, 7, 100, 254, 255}
+	for i := 0; i < n; i++ {
+		ok := true
+		id := ids[rng.Intn(len(ids))]
+		if rng.Intn(4) == 0 {
+			id = rng.Intn(256)
+		}
+		has := false
+		func() {
+			defer func() { recover() }()
+			has = r.Has(uint8(id))
+		}()
+		switch c := rng.Intn(100); {
+		case c < 30:
+			if has && rng.Intn(12) > 0 {
+				ok = call(fmt.Sprintf("R %d", id), func() string { r.Remove(uint8(id)); return "ok" })
+			} else {
+				x, k := mk()
+				ok = call(fmt.Sprintf("A %d %d", id, k), func() string { r.Add(uint8(id), x); return "ok" })
+			}
+		case c < 50:
+			if !has && rng.Intn(12) > 0 {
+				x, k := mk()
+				ok = call(fmt.Sprintf("A %d %d", id, k), func() string { r.Add(uint8(id), x); return "ok" })
+			} else {
+				ok = call(fmt.Sprintf("R %d", id), func() string { r.Remove(uint8(id)); return "ok" })
+			}
+		case c < 70:
+			ok = call(fmt.Sprintf("G %d", id), func() string { return "x " + show(r.Get(uint8(id))) })
+		case c < 90:
+			ok = call(fmt.Sprintf("Q %d", id), func() string { return b01(r.Has(uint8(id))) })
+		case c < 93:
+			ok = call("X", func() string { r.Reset(); return "ok" })
+		default:
+			ok = call("D", dump)
+		}
+		if !ok {
+			return
+		}
+	}
+	call("D", dump)
+}
+
 func main() {
 	seed := flag.Int64("seed", 1, "")
 	n := flag.Int("n", 100, "histories per structure")
@@ -344,6 +412,7 @@ func main() {
 		lockHistory(rng, *length*3)
 		bitSetHistory(rng, *length)
 		pagedHistory(rng, *length)
+		resHistory(rng, *length)
 	}
 	fmt.Fprintf(os.Stderr, "STATS %v\n", stats)
 }
